@@ -545,3 +545,22 @@ Qed.
 
 Theorem pm_accepts_valid n r : pm_accepts n r = true -> valid n = true.
 Proof. unfold pm_accepts. intros H. apply andb_true_iff in H. tauto. Qed.
+
+(* the guard in terms of filepath.Abs alone (Abs(Clean(x)) = Abs(x)) *)
+Theorem inside_guard_abs cwd base cand p : rooted cwd = true -> inside cwd base cand = Some p ->
+  p = abs cwd cand /\ is_prefix (abs cwd base) p = true.
+Proof.
+  intros Hc H. apply inside_guard in H. rewrite !abs_clean in H by exact Hc. exact H.
+Qed.
+
+Lemma cwd_ok_rooted cwd : cwd_ok cwd = true -> rooted cwd = true.
+Proof. unfold cwd_ok. intros H. apply andb_true_iff in H. destruct H as [H _]. apply andb_true_iff in H. tauto. Qed.
+
+(* for an accepted name and a covered format the first guard of the delete handler lets the record path through *)
+Theorem guard_passes cwd f ts n : valid n = true -> format_ok f = true -> cwd_ok cwd = true ->
+  inside cwd (common_path f) (expand_path f ts n) = Some (find_record_path cwd f ts n).
+Proof.
+  intros Hv Hf Hc. pose proof (cwd_ok_rooted cwd Hc) as Hr. unfold inside. rewrite !abs_clean by exact Hr.
+  pose proof (path_under_prefix _ _ (containment_expand cwd f ts n Hv Hf Hc)) as Hp.
+  unfold find_record_path in *. now rewrite Hp.
+Qed.
